@@ -225,9 +225,12 @@ CLAIMS = {
         "equals the polyline through the old rows at EVERY rational temperature (induction over rows, buckets and edge blocks + "
         "a refinement lemma for piecewise-linear functions); order_irrelevant (any permutation of the request gives the same "
         "table); reinsertion_noop; genCfg_ok (the generated column layout is consistent, by kernel decide over the live constants). "
-        "Strict descent / no near-duplicates and the dT / dH bookkeeping of rows are NOT theorems yet: they are decided by the "
-        "correspondence (600+ call sequences per run, every cell of the final table compared) plus the property oracle applied "
-        "to the implementation after every call.",
+        "bookkeeping_preserved_partial (if the first row keeps its books and every later row has dT = gap to the row above and "
+        "dH = CP*dT, so does the returned table, for ANY requested temperatures at or below the top row: induction over the walk "
+        "with a linked-run invariant; genPairs_ok decides the needed layout facts of the live (CP, dH) pairs). Strict descent of "
+        "the result is part of curves_preserved. NOT theorems: minimum spacing (no near-duplicates) and the bookkeeping of the TOP "
+        "block (rows above the table, with its pinned single-row exception): decided by the correspondence (600+ call "
+        "sequences per run, every cell of the final table compared) plus the property oracle after every call.",
    technique="Lean 4 proof (structural induction + piecewise-linear refinement lemma) + correspondence testing over call histories",
    design="§6 C08"),
  "C01": dict(
